@@ -917,7 +917,7 @@ pub fn check(scn: &ServerScn, log: &[Ev], sim: &Sim, node: u8) -> Vec<Violation>
     let mut stall_at: Vec<(u64, i32)> = Vec::new();
     let mut samples: Vec<(u64, u64, u64)> = Vec::new(); // seq, in_flight, timers
     let mut last = (0u64, 0u64);
-    let mut not_ready_seqs: Vec<u64> = Vec::new();
+    let mut ready_results: Vec<(u64, bool)> = Vec::new();
     let extreme = scn.script.iter().any(|a| matches!(&a.kind, PeerKind::Req { deadline, .. } if !matches!(deadline, Dl::Ms(ms) if *ms <= 3_600_000)));
     for e in log {
         match &e.kind {
@@ -949,14 +949,19 @@ pub fn check(scn: &ServerScn, log: &[Ev], sim: &Sim, node: u8) -> Vec<Violation>
                 if *op == Op::Next && *res == Res::Eof {
                     read_eof.get_or_insert(e.seq);
                 }
-                if *op == Op::Ready && *res == Res::Pending {
-                    not_ready_seqs.push(e.seq);
+                if *op == Op::Ready {
+                    ready_results.push((e.seq, *res == Res::Pending));
                 }
             }
             _ => {}
         }
     }
-    let stalled_at = |seq: u64| stall_at.iter().rev().find(|(s, _)| *s < seq).map(|(_, d)| *d > 0).unwrap_or(false);
+    let stalled_only = |seq: u64| stall_at.iter().rev().find(|(s, _)| *s < seq).map(|(_, d)| *d > 0).unwrap_or(false);
+    // sink not ready: a stall is in force, or the latest readiness probe before `seq` was Pending
+    let stalled_at = |seq: u64| {
+        stalled_only(seq)
+            || ready_results.iter().rev().find(|(s, _)| *s < seq).map(|(_, pending)| *pending).unwrap_or(false)
+    };
     let over = stream_dropped.or(stream_end).or(stream_err.as_ref().map(|x| x.0));
 
     // classify duplicates-while-in-flight that were ignored: a read request that was neither
@@ -1011,7 +1016,17 @@ pub fn check(scn: &ServerScn, log: &[Ev], sim: &Sim, node: u8) -> Vec<Violation>
                 }
             }
             if rsp.1 >= i.deadline.saturating_add(2) && !extreme {
-                v.push(viol("C06", "response-after-expiry", &[], format!("tag {} (id {}): deadline {}, response transmitted at t={}", i.tag, i.id, i.deadline, rsp.1)));
+                let mut tags = vec![];
+                if limit.is_some() {
+                    tags.push("limit");
+                    // was the sink unready at any idle point between the deadline and the write?
+                    if ready_results.iter().any(|(s, pending)| *pending && *s > i.read_seq && *s < rsp.0)
+                        || m.idles.iter().any(|(s, t)| *t >= i.deadline && *s < rsp.0 && stalled_at(*s))
+                    {
+                        tags.push("sink_unready");
+                    }
+                }
+                v.push(viol("C06", "response-after-expiry", &tags, format!("tag {} (id {}): deadline {}, response transmitted at t={}", i.tag, i.id, i.deadline, rsp.1)));
             }
             if let Some((g, _, false)) = i.hdrop {
                 if g < rsp.0 {
@@ -1099,7 +1114,20 @@ pub fn check(scn: &ServerScn, log: &[Ev], sim: &Sim, node: u8) -> Vec<Violation>
             if limit.is_some() {
                 tags.push("limit");
             }
-            if stalled_at(*sseq) {
+            // an expired-but-still-counted request whose expiry fell into a period in which the
+            // sink was not ready (the throttler then does not poll the inner channel)
+            let expired_during_unready = m.incs.iter().any(|c| {
+                c.tag != u64::MAX
+                    && c.read_seq < *sseq
+                    && !m.removed_obs(c, *sseq)
+                    && ((c.deadline <= m.t(*sseq)
+                        && m.idles.iter().any(|(s, t)| *s < *sseq && *s > c.read_seq && *t >= c.deadline && stalled_at(*s)))
+                        || {
+                            let g = c.unrun.or(c.hdrop.and_then(|(g, _, fin)| if fin { None } else { Some(g) }));
+                            g.map(|g| m.idles.iter().any(|(s, _)| *s < *sseq && *s > g && stalled_at(*s))).unwrap_or(false)
+                        })
+            });
+            if stalled_at(*sseq) || expired_during_unready {
                 tags.push("sink_unready");
             }
             v.push(viol("C11", "server-count", &tags, format!("channel reports {infl} in flight at seq {sseq}, at most {hi} requests can still be tracked")));
@@ -1266,6 +1294,6 @@ pub fn check(scn: &ServerScn, log: &[Ev], sim: &Sim, node: u8) -> Vec<Violation>
         };
         v.push(viol(prop, "panic", &[crate::panic_class(msg), "server"], format!("task {} panicked: {}", sim.names.borrow()[*task], msg)));
     }
-    let _ = (BTreeMap::<u8, u8>::new(), not_ready_seqs);
+    let _ = BTreeMap::<u8, u8>::new();
     v
 }
